@@ -21,6 +21,8 @@ def run(ctx):
     mz.r3(ctx, th, b, "default", "C19")
     if os.path.exists(os.path.join(HERE, "C19_lp.py")):
         _load("C19_lp").run_lp(ctx)
+    if os.path.exists(os.path.join(HERE, "C19_ls.py")):
+        _load("C19_ls").run_ls(ctx)
     ctx.assumptions += [
         "TLC trusted; the hook emitters in optimize/minimize.go and the recording Method proxy are trusted to log "
         "each goroutine's own events in program order (no cross-goroutine ordering is used)",
@@ -30,12 +32,14 @@ def run(ctx):
     ]
     return ctx.finish(
         rule="one trace = one real Minimize run (method x termination cause x Concurrent) validated against the protocol "
-             "model and the result-coherence conditions; LP: one case = one integer LP classified exactly by the spec",
+             "model and the result-coherence conditions; line search: one trace = one real LinesearchMethod run validated against LineSearch.tla, one case = one TLC behaviour replayed into LinesearchMethod / FunctionConverge; LP: one case = one integer LP classified exactly by the spec",
         exhaustive=False)
 
 
 def replay(ctx, path):
     d = json.load(open(path))["data"]
+    if d.get("ls"):
+        return _load("C19_ls").replay_ls(ctx, d)
     if "trace" in d:
         return _load("_minimize").replay_trace(ctx, d, "C19")
     lp = _load("C19_lp")
